@@ -39,7 +39,7 @@ var c11Topics = []string{"health", "connect", "list", "resolver", "intentions", 
 func (C11) Generate(rng *rand.Rand, tier string, runIdx uint64) simkit.Plan {
 	u := DefaultUniverse()
 	u.Nodes = u.Nodes[:2]
-	w := Weights{Register: 40, Deregister: 18, Txn: 4, Kinds: true}
+	w := Weights{Register: 40, Deregister: 18, Txn: 4, Kinds: true, DestCaseVariants: simkit.Chance(rng, 35)}
 	g := NewGen(rng, u, w)
 	p := &Plan{Cfg: Cfg{GCTTL: "15m", GCGran: "30s", Extra: map[string]string{
 		"cache_ttl": simkit.Pick(rng, []string{"0s", "2s", "1m"}),
@@ -108,7 +108,7 @@ func (C11) Generate(rng *rand.Rand, tier string, runIdx uint64) simkit.Plan {
 			if simkit.Chance(rng, 50) {
 				p.Steps = append(p.Steps, Step{Op: "leader.snapshot"})
 			} else {
-				p.Steps = append(p.Steps, Step{Op: "leader.install", Flag: simkit.Chance(rng, 60)})
+				p.Steps = append(p.Steps, Step{Op: "leader.install", Flag: simkit.Chance(rng, 60), Flag2: simkit.Chance(rng, 50)})
 			}
 		}
 	}
@@ -157,6 +157,7 @@ type c11World struct {
 	pub         *stream.EventPublisher
 	r           *simkit.Run
 	subs        map[int64]*subscriber
+	zombies     []*stream.Subscription // force-closed subscriptions whose owners have not released them yet
 	truth       map[string]map[uint64]string // subject key -> commit index -> canonical result
 	commits     []uint64
 	tokenWrites map[string]int // secret -> number of committed token writes (published or not)
@@ -483,6 +484,10 @@ func (C11) execute(p *Plan, r *simkit.Run) *simkit.Violation {
 				ch <- nextResult{ev, err}
 			}()
 		case "unsub":
+			if len(w.zombies) > 0 {
+				w.zombies[0].Unsubscribe()
+				w.zombies = w.zombies[1:]
+			}
 			s := w.subs[st.N]
 			if s != nil && s.sub != nil {
 				s.sub.Unsubscribe()
@@ -510,8 +515,13 @@ func (C11) execute(p *Plan, r *simkit.Run) *simkit.Violation {
 				// every later delivery until the next commit
 				if len(w.commits) > 0 {
 					last := w.commits[len(w.commits)-1]
+					// (whatever index a later snapshot carries: the restored tables keep their own, older, index
+					// entries, and a restore is not bound to reproduce the spelling a derived row had, see C02)
 					for _, k := range subjectKeys() {
-						w.truth[k][last] = w.query(k)
+						now := w.query(k)
+						for _, c := range w.commits {
+							w.truth[k][c] = now
+						}
 					}
 					w.restoredAt = last
 				}
@@ -540,7 +550,13 @@ func (C11) execute(p *Plan, r *simkit.Run) *simkit.Violation {
 						if res.err == nil || !(errors.Is(res.err, stream.ErrSubForceClosed) || errors.Is(res.err, stream.ErrACLChanged)) {
 							return mk("stale-after-close", "restore-force-closes-subscriptions", fmt.Sprintf("subscriber %d (%s) survived a snapshot restore: next returned (%v, %v)", s.id, s.key(), res.ev.Index, res.err))
 						}
-						s.sub.Unsubscribe()
+						if st.Flag2 {
+							// the owner has seen the error but releases the subscription later (after it resubscribed)
+							w.zombies = append(w.zombies, s.sub)
+							r.Hit("probe.force-closed-subscription-released-late")
+						} else {
+							s.sub.Unsubscribe()
+						}
 						s.sub = nil
 						// the client must reset its state and resubscribe
 						s.view, s.snapDone, s.lastIndex = map[string]string{}, false, 0
@@ -637,9 +653,10 @@ func errName(err error) string {
 	return "other"
 }
 
-// c11Restricted: node:read everywhere, service:read on "web" only.
+// c11Restricted: node:read everywhere, service:read on "web" only (in both spellings the generator
+// uses: ACL rules match names exactly, the catalog and the stream subjects do not).
 var c11Restricted = func() acl.Authorizer {
-	pol, err := acl.NewPolicyFromSource(`node_prefix "" { policy = "read" } service "web" { policy = "read" }`, nil, nil)
+	pol, err := acl.NewPolicyFromSource(`node_prefix "" { policy = "read" } service "web" { policy = "read" } service "Web" { policy = "read" }`, nil, nil)
 	if err != nil {
 		panic(err)
 	}
@@ -659,7 +676,7 @@ func (s *subscriber) asSeenBy(want string) string {
 	case s.topic == "list":
 		var keep []string
 		for _, name := range strings.Split(want, "\n") {
-			if name == "web" {
+			if strings.EqualFold(name, "web") {
 				keep = append(keep, name)
 			}
 		}
